@@ -41,27 +41,28 @@ type Hooks struct {
 }
 
 type Run struct {
-	P      *Plan
-	Prop   string
-	Base   string // scratch directory of this run
-	Dir    string // the log directory
-	M      *Model
-	L      klevdb.Log
-	Opts   klevdb.Options
-	OOpts  OpenOpts
-	Viol   *Violation
-	Abort  string
-	Probes map[string]int
-	Obs    *Rng
-	Step   int
-	H      Hooks
-	digest uint64
-	Log    []string // human-readable event log (kept short)
-	Feat   map[string]bool
-	Deep   bool // evaluate heavy oracles at this step
-	Ctx    map[string]any
-	Wrap   func(klevdb.Log) klevdb.Log
-	Dead   []klevdb.Log // handles of killed "processes": never used again, closed after the run
+	P        *Plan
+	Prop     string
+	Base     string // scratch directory of this run
+	Dir      string // the log directory
+	M        *Model
+	L        klevdb.Log
+	Opts     klevdb.Options
+	OOpts    OpenOpts
+	Viol     *Violation
+	Abort    string
+	Probes   map[string]int
+	Obs      *Rng
+	Step     int
+	H        Hooks
+	digest   uint64
+	Log      []string // human-readable event log (kept short)
+	Feat     map[string]bool
+	Deep     bool // evaluate heavy oracles at this step
+	Ctx      map[string]any
+	Wrap     func(klevdb.Log) klevdb.Log
+	Dead     []klevdb.Log // handles of killed "processes": never used again, closed after the run
+	cancelOp func()       // cancels the context of the operation in progress
 }
 
 func (r *Run) logf(format string, a ...any) {
@@ -422,11 +423,30 @@ func sortedKeys(m map[int64]struct{}) []int64 {
 // errBackoffStop is what the harness's backoff returns when it interrupts a multi helper.
 var errBackoffStop = errors.New("verifsim: backoff asked to stop")
 
-// backoff kinds: 0 none, 1 DeleteMultiWithWait (simulated timer), 2.. fails at its (kind-1)-th
-// call: the helper stops half-way and must report exactly what it removed so far.
+// interruptedByHarness: the helper ended early because the harness's backoff made it (its own
+// error, or the context the backoff cancelled).
+func interruptedByHarness(err error) bool {
+	return errors.Is(err, errBackoffStop) || errors.Is(err, context.Canceled)
+}
+
+// backoff kinds: 0 none, 1 DeleteMultiWithWait (simulated timer), 2..4 fails at its (kind-1)-th
+// call: the helper stops half-way and must report exactly what it removed so far; 5..6
+// cancels the context of the call at its (kind-4)-th call and returns nil: whether the helper
+// then goes on or stops, what it reports must be what it removed.
 func (r *Run) backoff(kind int64) klevdb.DeleteMultiBackoff {
 	if kind == 1 {
 		return klevdb.DeleteMultiWithWait(time.Millisecond)
+	}
+	if kind >= 5 {
+		calls := int64(0)
+		return func(context.Context) error {
+			calls++
+			if calls >= kind-4 && r.cancelOp != nil {
+				r.probe("multi_helper_context_cancelled")
+				r.cancelOp()
+			}
+			return nil
+		}
 	}
 	if kind >= 2 {
 		calls := int64(0)
@@ -478,7 +498,9 @@ func (r *Run) execOp(op *Op) {
 			return
 		}
 	}
-	ctx := context.Background()
+	ctx, cancel := context.WithCancel(context.Background())
+	defer cancel()
+	r.cancelOp = cancel
 	switch op.K {
 	case "pub":
 		ks, ms := r.resolveMsgs(op.Msgs)
@@ -567,7 +589,7 @@ func (r *Run) execOp(op *Op) {
 		}
 		r.applyDeleted(kind, req, fromKs(got), gotOffs, size, err)
 		if err != nil && !r.stopped() {
-			if errors.Is(err, errBackoffStop) {
+			if interruptedByHarness(err) {
 				return // interrupted by the harness: the partial report has been applied and checked
 			}
 			if len(req) > 0 && (req[0] < 0 || !r.M.IsLive(req[0])) && classify(err) != EOther {
@@ -584,7 +606,7 @@ func (r *Run) execOp(op *Op) {
 			return klevdb.Compact(ctx, r.L, time.Duration(op.A)*time.Microsecond, r.backoff(op.B))
 		})
 		r.logf("compact age=%dus err=%v", op.A, errStr(err))
-		if err != nil && !errors.Is(err, errBackoffStop) {
+		if err != nil && !interruptedByHarness(err) {
 			r.unexpected("Compact", err)
 			return
 		}
